@@ -495,7 +495,8 @@ impl<'a> GeneratorState<'a> {
                     }
                     let right = self.generate_expr(rhs, pos, high_byte, high_byte)?;
                     let ret = self.generate_assign(&left, &right, pos, high_byte);
-                    if self.saved_y {
+                    // When the left value is indexed by Y, Y is given back once both bytes are stored
+                    if self.saved_y && !matches!(left, ExprType::AbsoluteY(_)) {
                         self.asm_restore_y();
                         self.saved_y = false;
                         self.tmp_in_use = false;
@@ -525,6 +526,13 @@ impl<'a> GeneratorState<'a> {
                             }
                             _ => (),
                         };
+                    }
+                    if self.saved_y {
+                        self.asm_restore_y();
+                        self.saved_y = false;
+                        self.tmp_in_use = false;
+                        self.flags = FlagsState::Y;
+                        self.carry_flag_ok = false;
                     }
                     ret
                 }
